@@ -67,6 +67,14 @@ impl<TLiteral: Debug + Clone + Eq + Ord> Bdd<TLiteral> {
     }
 }
 
+#[cfg(feature = "verif")]
+impl<TLiteral: Debug + Clone + Eq + Ord> Bdd<TLiteral> {
+    /// Verification hook: the private input vector as it is stored.
+    pub fn verif_inputs(&self) -> &[TLiteral] {
+        &self.inputs
+    }
+}
+
 impl<TLiteral: Debug + Clone + Eq + Ord> Bdd<TLiteral> {
     pub(crate) fn new(inner: InnerBdd, inputs: Vec<TLiteral>) -> Self {
         Self { bdd: inner, inputs }
